@@ -463,9 +463,78 @@ func runRunes(c *Ctx, r *Reporter, rel, typeName string) {
 		bad := []string{}
 		var firstPos token.Pos
 		uses := 0
+		// slices of an Evy string that are only measured in runes (utf8.RuneCountInString(s[:i])) are the
+		// legitimate conversion of a byte offset into a character index
+		counted := map[ast.Expr]bool{}
+		byteOffsets := map[types.Object]*ast.CallExpr{} // locals holding a byte offset into an Evy string
+		ast.Inspect(fn.Decl.Body, func(n ast.Node) bool {
+			call, ok := n.(*ast.CallExpr)
+			if !ok {
+				return true
+			}
+			if cf := calleeFunc(info, call); cf != nil && cf.Pkg() != nil && cf.Pkg().Path() == "unicode/utf8" && strings.HasPrefix(cf.Name(), "RuneCount") && len(call.Args) == 1 {
+				counted[ast.Unparen(call.Args[0])] = true
+			}
+			return true
+		})
+		isByteOffsetCall := func(e ast.Expr) *ast.CallExpr {
+			call, ok := ast.Unparen(e).(*ast.CallExpr)
+			if !ok || len(call.Args) == 0 {
+				return nil
+			}
+			cf := calleeFunc(info, call)
+			if cf == nil || cf.Pkg() == nil || (cf.Pkg().Path() != "strings" && cf.Pkg().Path() != "bytes") {
+				return nil
+			}
+			if !strings.HasPrefix(cf.Name(), "Index") && !strings.HasPrefix(cf.Name(), "LastIndex") {
+				return nil
+			}
+			if !isEvyString(call.Args[0]) {
+				// a local copy of the Go string: s := args[0].(*stringVal).V
+				id, ok := ast.Unparen(call.Args[0]).(*ast.Ident)
+				if !ok || !evyStringLocals(info, fn.Decl.Body, isEvyString)[info.ObjectOf(id)] {
+					return nil
+				}
+			}
+			return call
+		}
+		ast.Inspect(fn.Decl.Body, func(n ast.Node) bool {
+			as, ok := n.(*ast.AssignStmt)
+			if !ok || len(as.Lhs) != len(as.Rhs) {
+				return true
+			}
+			for i, rhs := range as.Rhs {
+				if call := isByteOffsetCall(rhs); call != nil {
+					if id, ok := as.Lhs[i].(*ast.Ident); ok {
+						if obj := info.ObjectOf(id); obj != nil {
+							byteOffsets[obj] = call
+						}
+					}
+				}
+			}
+			return true
+		})
 		ast.Inspect(fn.Decl.Body, func(n ast.Node) bool {
 			switch x := n.(type) {
 			case *ast.CallExpr:
+				// float64(<byte offset>): the offset becomes an Evy number
+				if tt, conv := isConversion(info, x); conv && len(x.Args) == 1 {
+					if b, ok := tt.Underlying().(*types.Basic); ok && b.Info()&types.IsFloat != 0 {
+						arg := ast.Unparen(x.Args[0])
+						var src *ast.CallExpr
+						if c := isByteOffsetCall(arg); c != nil {
+							src = c
+						} else if id, ok := arg.(*ast.Ident); ok {
+							src = byteOffsets[info.ObjectOf(id)]
+						}
+						if src != nil {
+							bad = append(bad, types.ExprString(src.Fun)+" returns a byte offset that becomes an Evy number")
+							if !firstPos.IsValid() {
+								firstPos = x.Pos()
+							}
+						}
+					}
+				}
 				if isBuiltinCall(info, x, "len") && len(x.Args) == 1 && isEvyString(x.Args[0]) {
 					bad = append(bad, "len("+types.ExprString(x.Args[0])+") counts bytes")
 					if !firstPos.IsValid() {
@@ -480,6 +549,15 @@ func runRunes(c *Ctx, r *Reporter, rel, typeName string) {
 					}
 				}
 			case *ast.SliceExpr:
+				if counted[x] {
+					break // only measured in runes
+				}
+				if id, ok := ast.Unparen(x.X).(*ast.Ident); ok && evyStringLocals(info, fn.Decl.Body, isEvyString)[info.ObjectOf(id)] {
+					bad = append(bad, types.ExprString(x)+" slices bytes")
+					if !firstPos.IsValid() {
+						firstPos = x.Pos()
+					}
+				}
 				if isEvyString(x.X) {
 					bad = append(bad, types.ExprString(x)+" slices bytes")
 					if !firstPos.IsValid() {
@@ -807,4 +885,26 @@ func checkDelete(p *Program, pkg *packages.Package, fd *FuncDecl, r *Reporter) {
 			r.Check(s1 && s2, construct+":splice", p.Rel(instrPos(call)), "key spliced out of the order", "the order update in Delete is not a splice of the old order")
 		}
 	}
+}
+
+// evyStringLocals returns the local variables of body that are initialised with the Go string of an Evy string value.
+func evyStringLocals(info *types.Info, body ast.Node, isEvyString func(ast.Expr) bool) map[types.Object]bool {
+	out := map[types.Object]bool{}
+	ast.Inspect(body, func(n ast.Node) bool {
+		as, ok := n.(*ast.AssignStmt)
+		if !ok || len(as.Lhs) != len(as.Rhs) {
+			return true
+		}
+		for i, rhs := range as.Rhs {
+			if isEvyString(rhs) {
+				if id, ok := as.Lhs[i].(*ast.Ident); ok {
+					if obj := info.ObjectOf(id); obj != nil {
+						out[obj] = true
+					}
+				}
+			}
+		}
+		return true
+	})
+	return out
 }
